@@ -26,7 +26,7 @@ from pathlib import Path
 
 from harness import shim
 
-shim.install()
+shim.install(chdir=False)   # the working directory is switched only around calls that need it
 
 import yaml  # noqa: E402
 from utils.check_parameter_types import check_types  # noqa: E402
@@ -169,13 +169,26 @@ def real_check(omit, default, test):
     return guarded(lambda: check_types(d, t, "verif", omit_keys=list(omit)) or "ok")
 
 
+class in_repo:
+    """cwd = <repo>/LDAR_Sim while the InputManager opens ./src/default_parameters/..."""
+
+    def __enter__(self):
+        self._old = os.getcwd()
+        os.chdir(shim.REPO_SIM)
+
+    def __exit__(self, *a):
+        os.chdir(self._old)
+        return False
+
+
 _IM = None
 
 
 def _im_obj():
     global _IM
     if _IM is None:
-        _IM = InputManager()
+        with in_repo():
+            _IM = InputManager()
     return _IM
 
 
@@ -200,7 +213,8 @@ def real_strip(tree):
 
 
 def real_names(sim):
-    m = InputManager()
+    with in_repo():
+        m = InputManager()
     m.simulation_parameters = copy.deepcopy(sim)
     return guarded(lambda: m.validate_names() or "ok")
 
@@ -241,8 +255,9 @@ def real_intake_paths(paths):
     import io
 
     def f():
-        m = InputManager()
-        with contextlib.redirect_stdout(io.StringIO()):
-            return m.read_and_validate_parameters(list(paths))
+        with in_repo():
+            m = InputManager()
+            with contextlib.redirect_stdout(io.StringIO()):
+                return m.read_and_validate_parameters(list(paths))
 
     return guarded(f)
